@@ -45,6 +45,7 @@ class Scenario:
     exec_timeouts_s: list = field(default_factory=lambda: [None])    # execution timeouts offered to enqueue
     no_defer: bool = False               # never offer recurring (defer_by) parameters
     script: list | None = None           # directed history: the operations in this order instead of seeded choices
+    delay_kind: str | None = None        # "net" | "until" | "defer+net" | "defer": force the form of the delay parameters
     abs_delays: bool = False             # delays count from the start of the history, not from the enqueue: identical due instants
 
 
@@ -141,9 +142,11 @@ async def run_history(loop, sc: Scenario, make=None, projector=None, latency_us=
         if delay_ms is not None:
             when = (t0_wall if sc.abs_delays else now) + timedelta(milliseconds=delay_ms)
             r = rng.random()
+            if sc.delay_kind is not None:
+                r = {"net": 0.1, "until": 0.5, "defer": 0.8, "defer+net": 0.95}[sc.delay_kind]
             if r < 0.4:
                 kw["delay"] = DelayProperties(next_execution_time=when)
-            elif r < 0.75 or sc.no_defer:
+            elif r < 0.75 or (sc.no_defer and sc.delay_kind is None):
                 kw["delay"] = DelayProperties(delay_until=when)
             elif r < 0.88 and ttl_ms is None and delay_ms > 0:
                 # the first run of a recurring job with a long period (no stored next time: its due time is the next point of
